@@ -537,9 +537,9 @@ def h_exec(ft, kind, n, bands):
 
 
 def k_exec(rep, thorough):
-    ns = list(range(1, 9)) + ([12, 16, 31, 49, 64] if thorough else [])
+    ns = list(range(1, 9)) if not thorough else list(range(1, 65))
     rep.kernel('K-exec', functions=[F + ':load_image_band', F + ':is_compressed'],
-               bounds='the WHOLE function on a symbolic file: rows 1..20000, columns 1..8, channels 1..4 and cube index symbolic integers; band counts n in %s with every band number (pairs of adjacent bands in one path); plain / 3-D / 4-D / BSCALE / compressed files' % ns,
+               bounds='the WHOLE function on a symbolic file: rows 1..20000, columns 1..8, channels 1..4 and cube index symbolic integers; band counts n in %s with every band number (runs of adjacent bands in one path); plain / 3-D / 4-D / BSCALE / compressed files' % ns,
                stubs=['astropy fits.getheader / fits.open / .section -> header dict and a view object that records which index range of which file axis every axis covers (python slice clamping, integer indexing, np.squeeze with a case split on length == 1)',
                       'expand() -> full-size image and header (contract: the header it returns describes the expanded image)'],
                assumes=['python integers (no float rounding here: K-rows decides the arithmetic bit-precisely)'], outside=['pixel values (views only)', 'more than 8 bands in the quick tier'])
@@ -549,8 +549,9 @@ def k_exec(rep, thorough):
     for kind in KINDS:
         for n in ns:
             groups = [[i, i + 1] for i in range(0, n - 1)] or [[0]]
-            if n > 8:
-                groups = [[0, 1], [n // 2, n // 2 + 1], [n - 2, n - 1]]
+            if n > 16:
+                # longer runs of consecutive bands per path (fewer paths): every adjacent pair is still covered
+                groups = [list(range(i, min(i + 9, n))) for i in range(0, n - 1, 8)]
             for g in groups:
                 plans.append((h_exec(ft, kind, n, g), dict(wall_s=300)))
                 meta.append((kind, n))
